@@ -26,4 +26,41 @@ func init() {
 	// harness file carries the ordinary Go bodies `a || b` / `a && b`, which would fork).
 	verifIntrinsics["verifC05Or"] = func(fr *frame, args []value) value { return orV(args[0], args[1]) }
 	verifIntrinsics["verifC05And"] = func(fr *frame, args []value) value { return andV(args[0], args[1]) }
+
+	// golang.org/x/exp/mmap over the in-memory file system (model: a read-only live view of the
+	// memfs file; Open never fails for an existing file; ReadAt has the documented semantics of
+	// mmap.ReaderAt: error for a closed reader or an offset outside [0,len], io.EOF on a short read).
+	const mm = "golang.org/x/exp/mmap."
+	externals[mm+"Open"] = func(fr *frame, args []value) value {
+		stub("mmap.Open (model: read-only view of the memfs file)")
+		mf := mfs.files[args[0].(string)]
+		if mf == nil {
+			return tuple{(*value)(nil), errNotExist(fr)}
+		}
+		return tuple{newFileValue(mf, false), iface{}}
+	}
+	externals["(*"+mm+"ReaderAt).Len"] = func(fr *frame, args []value) value { return len(getOpen(args[0]).mf.data) }
+	externals["(*"+mm+"ReaderAt).At"] = func(fr *frame, args []value) value {
+		return getOpen(args[0]).mf.data[int(asInt64(args[1]))]
+	}
+	externals["(*"+mm+"ReaderAt).Close"] = func(fr *frame, args []value) value {
+		getOpen(args[0]).closed = true
+		return iface{}
+	}
+	externals["(*"+mm+"ReaderAt).ReadAt"] = func(fr *frame, args []value) value {
+		of := getOpen(args[0])
+		if of.closed {
+			return tuple{0, newEngineError("mmap: closed", nil)}
+		}
+		b := args[1].([]value)
+		off := asInt64(args[2])
+		if off < 0 || int64(len(of.mf.data)) < off {
+			return tuple{0, newEngineError("mmap: invalid ReadAt offset", nil)}
+		}
+		n := copy(b, of.mf.data[off:])
+		if n < len(b) {
+			return tuple{n, ioEOF(fr)}
+		}
+		return tuple{n, iface{}}
+	}
 }
